@@ -95,6 +95,17 @@ def audit(prop: str, log: list[str]) -> dict:
         log.append("class surface (which class overrides which inherited method) compared with lean/obligations/class_surface.json")
     except Exception as e:      # noqa
         res["failed"].append(f"class-surface: could not be computed ({e!r})")
+    # plotting functions are assumed read-only by every theorem about a history that contains one (tools/plot_purity.py)
+    try:
+        import importlib.util
+        spec_ = importlib.util.spec_from_file_location("plot_purity", str(VERIF_DIR / "tools" / "plot_purity.py"))
+        pp = importlib.util.module_from_spec(spec_)
+        spec_.loader.exec_module(pp)
+        for d in pp.diff(json.loads(pp.SNAPSHOT.read_text()), pp.surface(REPO)):
+            res["failed"].append("plot-purity: " + d)
+        log.append("plotting code (visualize, plot_*): state-escaping statements compared with lean/obligations/plot_purity.json")
+    except Exception as e:      # noqa
+        res["failed"].append(f"plot-purity: could not be computed ({e!r})")
     # fit_gif repeats fit's training loop between drawing statements (tools/fitgif_skeleton.py): the properties that
     # speak about training histories rely on the two loops being the same
     if prop in FITGIF_PROPS:
